@@ -25,9 +25,12 @@ ASSUMPTIONS = [
     "A factory is instantiated once per module (two closures of one factory share a code object, so their reference is ambiguous by construction and outside 'functions that have an absolute reference string').",
     "For a decorated function the reference denotes the function written in the 'def' (docs: the absolute notation bypasses decorators).",
     "Generated modules are imported by name from a scratch directory on sys.path.",
+    "Every generated module has its own constants, so no two generated files contain a textually identical function (identical functions in two files are the trigger of the listed known finding and live in its own stream).",
 ]
+MECH_TWIN = "identical-functions-in-two-files-share-registry-entries"
 MECH_SHADOW = "reference-shadowed-by-same-named-method"
 MECHANISMS = {
+    MECH_TWIN: "two files that contain a textually identical function (same name, same first line) have EQUAL code objects; codefind keys its path/function tables by code object, so swapping the code of one of them re-points the other file's reference: after probing a.f, '/b/f' resolves to a.f and probes made through it land on a.f",
     MECH_SHADOW: "when a module-level function f and a method (or nested function) also called f live in one file, probing the method makes '/module/f' resolve to the method from then on: compiling the variant exec's a synthetic module whose top-level def f is picked up by codefind's audit hook and re-registered under the path (file, 'f')",
     "ambiguous-reference-while-probed": "resolving '/m/f' while a probe is active on f raises 'Reference is ambiguous': the compiled variant's helper function shares the swapped-in code object and is not marked __ptera_discard__",
 }
@@ -35,7 +38,7 @@ MIN_DECIDING = {"quick": 5000, "thorough": 100000}
 SHARD_TIMEOUT = {"quick": 900, "thorough": 7200}
 
 
-def gen_module(rnd, name, collide=None):
+def gen_module(rnd, name, collide=None, salt=0):
     """Returns (source, [fn descriptors]).  descriptor: dict(access=python expr from module ns to the
     probed callable, target=expr giving the function that must be resolved, by_name=selector prefix, k=const)."""
     lines = [
@@ -49,7 +52,8 @@ def gen_module(rnd, name, collide=None):
         "",
     ]
     descs = []
-    k = [0]
+
+    k = [salt * 100]
 
     def body(indent, selfarg):
         k[0] += 1
@@ -97,7 +101,7 @@ def gen_module(rnd, name, collide=None):
         # a closure that really captures a free variable
         k[0] += 1
         c = 100 * k[0]
-        lines += ["def factory3():", f"    kfree = {c}", "    def clos(x):", "        v = x + kfree", "        return v", "    return clos", "", "clos_fn = factory3()", ""]
+        lines += ["def factory3():", f"    kfree = {c}", "    def clos(x):", f"        v = x + kfree + {c} - {c}", "        return v", "    return clos", "", "clos_fn = factory3()", ""]
         descs.append({"call": "clos_fn({x})", "target": "clos_fn", "by_name": "clos_fn", "k": c, "kind": "closure-with-free-variable"})
     if (rnd.random() < 0.5) if collide is None else collide:
         # a method that shares its name with a module-level function
@@ -168,7 +172,14 @@ def run_history(mod, descs, ops, res):
             problems.append({"after": where, "problem": f"select({r + ' > v'!r}) raised {type(ex).__name__}: {ex}", "active_on_it": sum(a["fi"] == fi for a in active)})
             return False
         if s.element.name is not t:
-            problems.append({"after": where, "problem": f"{r} resolved to {s.element.name!r}, not to {t!r}"})
+            extra = {}
+            if os.environ.get("C14_DEBUG"):
+                import codefind
+                from codefind import code_registry as cr
+
+                o = s.element.name
+                extra = {"last_cost": cr.last_cost, "other_discard": getattr(o, "__ptera_discard__", None), "other_code_is_target_code": o.__code__ is t.__code__, "other_module": getattr(o, "__module__", None), "target_module": t.__module__, "other_has_stack": hasattr(o, "__ptera_stack__"), "other_globals_is_target_globals": o.__globals__ is t.__globals__, "other_qualname": o.__qualname__}
+            problems.append({"after": where, "problem": f"{r} resolved to {s.element.name!r}, not to {t!r}", "debug": extra})
             return False
         return True
 
@@ -262,8 +273,41 @@ def classify(problems):
     return None
 
 
+def twin_stream(spec, res):
+    """Known-finding stream: two files with identical text; probe a function of the first, then
+    resolve the reference of its twin in the second."""
+    scratch = spec["scratch"]
+    if scratch not in sys.path:
+        sys.path.insert(0, scratch)
+    s0, cnt = spec["range"]
+    for i in range(s0, s0 + cnt):
+        src, descs = gen_module(rng_for("C14twin", spec["seed"], i), "x", False, salt=i + 1)
+        mods = []
+        for tag in ("a", "b"):
+            name = f"c14tw_{spec['seed']}_{i}{tag}"
+            with open(os.path.join(scratch, name + ".py"), "w") as f:
+                f.write(src)
+            importlib.invalidate_caches()
+            mods.append(importlib.import_module(name))
+        res.evaluations += 1
+        pa, _ = run_history(mods[0], descs, [["act_ref", 0], ["call", 0, 1], ["deact", 0]], res)
+        pb, _ = run_history(mods[1], descs, [["resolve", 0], ["act_ref", 0], ["call", 0, 2], ["deact", 0]], res)
+        case = {"twin": True, "src": src, "descs": descs, "ops": "probe /a/top0, then resolve and probe /b/top0"}
+        if pa:
+            res.violation(case, pa[:2])
+        elif pb:
+            txt = " ".join(str(p["problem"]) for p in pb)
+            if "resolved to" in txt or "instrument_count" in txt or "stream" in txt:
+                res.finding(MECH_TWIN, {"case": case, "problems": pb[:2]})
+            else:
+                res.violation(case, pb[:2])
+
+
 def run_shard(spec):
     res = ShardResult()
+    if spec.get("finding") == MECH_TWIN:
+        twin_stream(spec, res)
+        return res.as_dict()
     known = set(spec.get("known", []))
     mech = "ambiguous-reference-while-probed"
     s0, cnt = spec["range"]
@@ -272,12 +316,16 @@ def run_shard(spec):
     collide = True if finding_stream else (False if MECH_SHADOW in known else None)
     if scratch not in sys.path:
         sys.path.insert(0, scratch)
+    if os.environ.get("C14_FORCE_CACHE"):
+        from codefind import code_registry
+
+        code_registry.always_use_cache = True
     mod = descs = src = None
     for n, i in enumerate(range(s0, s0 + cnt)):
         rnd = rng_for("C14", spec["seed"], i)
         if mod is None or n % 10 == 0:
             name = f"c14m_{spec['seed']}_{i}"
-            src, descs = gen_module(rng_for("C14mod", spec["seed"], i), name, collide)
+            src, descs = gen_module(rng_for("C14mod", spec["seed"], i), name, collide, salt=i + 1)
             with open(os.path.join(scratch, name + ".py"), "w") as f:
                 f.write(src)
             importlib.invalidate_caches()
@@ -309,6 +357,8 @@ def plan(tier, seed, known):
     specs = [{"range": [s, c], "maxlen": maxlen} for s, c in common.split_range(n, shards)]
     if MECH_SHADOW in known:
         specs += [{"range": [10**6 + s, c], "maxlen": maxlen, "finding": MECH_SHADOW} for s, c in common.split_range(320, 4)]
+    if MECH_TWIN in known:
+        specs += [{"range": [2 * 10**6, 40], "maxlen": maxlen, "finding": MECH_TWIN}]
     return specs
 
 
